@@ -392,7 +392,7 @@ class Parser:
             did_something = True
         elif next_tag is _times and _PREC_TIMES > min_precedence:
             pstate.advance()
-            right_exp = self.parse_expression(pstate, _PREC_PLUS)
+            right_exp = self.parse_expression(pstate, _PREC_TIMES)
             if isinstance(left_exp, primitives.Product):
                 left_exp = primitives.Product((*left_exp.children, right_exp))
             else:
